@@ -575,6 +575,15 @@ mod pipeline {
             let r = s2.finalize().await.unwrap().expect("removal cookie");
             assert!(!shows(&s2));
             assert_eq!((r.name(), r.domain(), r.path()), ("sid", domain, path), "removal cookie scope");
+            // the errors that carry an id do not print it either (neither Debug, pretty Debug nor Display; nor wrapped)
+            let sid: SessionId = serde_json::from_value(serde_json::Value::String(id.clone())).unwrap();
+            use pavex_session::store::errors::{ChangeIdError, DeleteError, DuplicateIdError, UnknownIdError, UpdateError};
+            for text in [format!("{:?}", UnknownIdError { id: sid }), format!("{:#?}", UnknownIdError { id: sid }), format!("{}", UnknownIdError { id: sid }),
+                         format!("{:?}", DuplicateIdError { id: sid }), format!("{:#?}", DuplicateIdError { id: sid }), format!("{}", DuplicateIdError { id: sid }),
+                         format!("{:?}", UpdateError::UnknownIdError(UnknownIdError { id: sid })), format!("{:?}", DeleteError::UnknownId(UnknownIdError { id: sid })),
+                         format!("{:?}", ChangeIdError::DuplicateId(DuplicateIdError { id: sid }))] {
+                assert!(!text.contains(&id) && !text.contains(&id.replace('-', "")), "an error type shows the session id: {text}");
+            }
         }}}}}}
     }
 }
